@@ -137,6 +137,10 @@ func (g *fleetGen) mkNode(role, kind string, mapFrom *engine.Node) *fgNode {
 		spec.Map, spec.Alpha, spec.ByGam, spec.Gamma, spec.Offset = mapFrom.Map, mapFrom.Alpha, mapFrom.ByGam, mapFrom.Gamma, mapFrom.Offset
 	} else {
 		drawMappingSpec(g.r, &spec)
+		if g.prof.prop == "C19" && !spec.ByGam && g.r.Pct(10) {
+			// the fine end of the accuracy range: neighbouring bases 1+2*alpha differ by little
+			spec.Alpha = engine.F64(g.r.LogUniform(1e-6, 1e-5))
+		}
 	}
 	m, err := buildMapping(&spec)
 	if err != nil {
@@ -423,6 +427,18 @@ func GenFleet(prof *fleetProfile) func(r *engine.PRNG, run int, tier string) *en
 				}
 				g.mkNode(prof.roles[r.Intn(len(prof.roles))], prof.stores[r.Intn(len(prof.stores))], &o)
 				// the fleet itself is sometimes built from base and offset too, so that both sides are
+			} else if shared != nil && !shared.ByGam && r.Pct(map[bool]int{false: 30, true: 50}[prof.prop == "C19"]) {
+				// same kind, an accuracy only just clearly different (0.11% .. 10% apart), also at the fine end
+				// of the accuracy range where the bases 1+2*alpha are closest to each other
+				o := *shared
+				f := []float64{1.0011, 1.0011, 1.002, 1.01, 1.1}[r.Intn(5)]
+				if r.Pct(50) {
+					f = 1 / f
+				}
+				if a := float64(o.Alpha) * f; a > 1e-6 && a < 0.99 {
+					o.Alpha = engine.F64(a)
+				}
+				g.mkNode(prof.roles[r.Intn(len(prof.roles))], prof.stores[r.Intn(len(prof.stores))], &o)
 			} else {
 				g.mkNode(prof.roles[r.Intn(len(prof.roles))], prof.stores[r.Intn(len(prof.stores))], nil)
 			}
